@@ -238,6 +238,17 @@ func (h *harnessDef) config(tier string, known map[string]bool) engine.Config {
 	c.Thorough = tier == "thorough"
 	if tier == "thorough" {
 		c.MaxWallS = atoi(h.Opts["maxwall_thorough"], c.MaxWallS*4)
+		// the thorough tier may take its time: four times the path budget and
+		// a 10 s limit per incremental query (a loaded machine otherwise turns
+		// slow queries into 'unknown')
+		base := c.MaxPaths
+		if base == 0 {
+			base = 200000
+		}
+		c.MaxPaths = atoi(h.Opts["maxpaths_thorough"], base*4)
+		if c.TimeoutMs == 0 {
+			c.TimeoutMs = 10000
+		}
 	}
 	return c
 }
